@@ -67,7 +67,12 @@ def run (kv : KV) : String :=
   -- C08: every dispatched task had started while no task had ended and every gate was shut
   let c08 := started.all (· != "never") && !aborted
   -- C20 (pool part): back to at most MIN_THREADS when idle; nobody left after the pool is dropped
-  let c20 := decide (liveIdle ≤ minThreads) && liveDropped == 0 && !aborted
+  -- under light traffic (one short task per second for 9 s) a surplus worker is idle for more than
+  -- the idle period unless it was one of the few woken for those tasks: at the end at most
+  -- MIN_THREADS + (tasks of the last idle period + 1) workers may be alive
+  let trickle := toNatD (get kv "trickle")
+  let trickleOk := trickle == 0 || decide (toNatD (get kv "live_trickle") ≤ minThreads + 7)
+  let c20 := decide (liveIdle ≤ minThreads) && liveDropped == 0 && !aborted && trickleOk
     && (quiet.toList.drop 1 == ['1', '1'])
   let n := started.length
   let tags := [
@@ -77,7 +82,7 @@ def run (kv : KV) : String :=
     "timeoutwake:" ++ b01 (strs.any (fun x => x.startsWith "T")),
     "presettle:" ++ get kv "presettle",
     "burstlive:" ++ (if liveBurst ≤ 4 then "le4" else "gt4"),
-    "ptimer:" ++ get kv "ptimer" ]
+    "ptimer:" ++ get kv "ptimer", "trickle:" ++ b01 (decide (0 < trickle)) ]
   let diff := if !parsedAll then "unparsed-label"
     else match rej with
       | some i => "label-rejected:" ++ toString i ++ ":" ++ strs.getD i "?"
